@@ -27,7 +27,7 @@ Definition upd (s : state) (n : nid) (f : node -> node) : state :=
   s <| nodes := alter f n (nodes s) |>.
 Definition emit (e : event) (s : state) : state := s <| log := e :: log s |>.
 Definition bd (s : state) (b : nat) : bindrec :=
-  default (mkBind 0%nat 0%nat 0%nat None [] [] 0%nat) (binds s !! b).
+  default (mkBind 0%nat 0%nat 0%nat None [] [] 0%nat false []) (binds s !! b).
 Definition updb (s : state) (b : nat) (f : bindrec -> bindrec) : state :=
   s <| binds := alter f b (binds s) |>.
 
@@ -351,32 +351,33 @@ Definition newNode (s : state) (k : kind) (d : list nid) (sc : option nat) (v : 
   (s, n).
 
 (* BindContext: the lhs-change node, then the main node *)
-Definition newBind (s : state) (cases : list texp) (a : nid) (sc : option nat) : state * nid :=
+Definition newBindWith (memo : bool) (s : state) (cases : list texp) (a : nid) (sc : option nat) : state * nid :=
   let b := next s in
-  let s := s <| binds := <[b := mkBind a b (S b) None [] cases 0%nat]> (binds s) |> in
+  let s := s <| binds := <[b := mkBind a b (S b) None [] cases 0%nat memo []]> (binds s) |> in
   let '(s, _) := newNode s (KBindLhs b) [a] sc 0 in
   newNode s (KBindMain b) [b] sc 0.
+Definition newBind := newBindWith false.
 
 (* running a bind function: build the chosen template in scope [b] for input [x] *)
-Fixpoint inst (s : state) (b : nat) (x : Z) (e : texp) : state * option nid :=
+Fixpoint inst (s : state) (sc : option nat) (x : Z) (e : texp) : state * option nid :=
   match e with
-  | TRet k => let '(s, n) := newNode s KReturn [] (Some b) k in (s, Some n)
-  | TX => let '(s, n) := newNode s KReturn [] (Some b) x in (s, Some n)
+  | TRet k => let '(s, n) := newNode s KReturn [] sc k in (s, Some n)
+  | TX => let '(s, n) := newNode s KReturn [] sc x in (s, Some n)
   | TOuter n => (s, Some n)
   | TMap f e =>
-    let '(s, a) := inst s b x e in
+    let '(s, a) := inst s sc x e in
     let a := default 0%nat a in
-    let '(s, n) := newNode s (KMap f) [a] (Some b) 0 in (s, Some n)
+    let '(s, n) := newNode s (KMap f) [a] sc 0 in (s, Some n)
   | TMap2 f e1 e2 =>
-    let '(s, a1) := inst s b x e1 in
-    let '(s, a2) := inst s b x e2 in
-    let '(s, n) := newNode s (KMap2 f) [default 0%nat a1; default 0%nat a2] (Some b) 0 in (s, Some n)
+    let '(s, a1) := inst s sc x e1 in
+    let '(s, a2) := inst s sc x e2 in
+    let '(s, n) := newNode s (KMap2 f) [default 0%nat a1; default 0%nat a2] sc 0 in (s, Some n)
   | TCut c e =>
-    let '(s, a) := inst s b x e in
-    let '(s, n) := newNode s (KCutoff c) [default 0%nat a] (Some b) 0 in (s, Some n)
+    let '(s, a) := inst s sc x e in
+    let '(s, n) := newNode s (KCutoff c) [default 0%nat a] sc 0 in (s, Some n)
   | TBind cases e =>
-    let '(s, a) := inst s b x e in
-    let '(s, n) := newBind s cases (default 0%nat a) (Some b) in (s, Some n)
+    let '(s, a) := inst s sc x e in
+    let '(s, n) := newBind s cases (default 0%nat a) sc in (s, Some n)
   | TNil => (s, None)
   end.
 
@@ -438,15 +439,32 @@ Definition bindLhsStabilize (fuel : nat) (p : plan) (s : state) (b : nat) : M :=
   let oldRhs := b_rhs br in
   let s := updb s b (set b_rhsNodes (fun _ => [])) in
   let x := valueOf s (b_lhs br) in
-  '(s, e) <-! invoke p s b WFn;
-  match e with
-  | Some e => fail (updb s b (set b_rhsNodes (fun _ => oldNodes))) e   (* the deferred restore *)
-  | None =>
-    let cases := b_cases br in
-    let case := nth (Z.to_nat (x mod Z.of_nat (length cases))) cases TNil in
-    let '(s, root) := inst s b x case in
-    let s := emit (EvBindFn b x root) s in
-    let s := updb s b (fun r => r <| b_rhs := root |> <| b_gen := S (b_gen r) |>) in
+  (* incrutil.BindMemoized: a cached right-hand side is returned without running the function *)
+  let cached := if b_memo br then (list_find (fun kv => fst kv = x) (b_cache br)) else None in
+  '(s, e, built) <-! (match cached with
+     | Some (_, (_, root)) => Ok (s, None, Some root)
+     | None =>
+       '(s, e) <-! invoke p s b WFn;
+       match e with
+       | Some e => Ok (s, Some e, None)
+       | None =>
+         let cases := b_cases br in
+         let case := nth (Z.to_nat (x mod Z.of_nat (length cases))) cases TNil in
+         (* a plain bind builds in its own scope; a memoized bind builds the cached subgraph in
+            the scope it lives in itself, so that the subgraph outlives the bind's rebuilds *)
+         let sc := if b_memo br then scope (nd s b) else Some b in
+         let '(s, root) := inst s sc x case in
+         let s := emit (EvBindFn b x root) s in
+         let s := updb s b (fun r => r <| b_gen := S (b_gen r) |>
+                                      <| b_cache := if b_memo r then b_cache r ++ [(x, root)] else b_cache r |>) in
+         Ok (s, None, Some root)
+       end
+     end);
+  match e, built with
+  | Some e, _ => fail (updb s b (set b_rhsNodes (fun _ => oldNodes))) e   (* the deferred restore *)
+  | None, None => Crash MissingNode                                        (* not reachable *)
+  | None, Some root =>
+    let s := updb s b (set b_rhs (fun _ => root)) in
     let main := b_main br in
     let s := upd s main (set decl (fun _ => match root with Some r => [b; r] | None => [b] end)) in
     s <-? changeParent fuel s main oldRhs root;
@@ -710,6 +728,12 @@ Definition isVar (s : state) (n : nid) : bool :=
 Definition isMapN (s : state) (n : nid) : bool :=
   match nodes s !! n with Some x => match nkind x with KMapN _ => true | _ => false end | None => false end.
 
+Definition isMemoMain (s : state) (n : nid) : bool :=
+  match nodes s !! n with
+  | Some x => match nkind x with KBindMain b => b_memo (bd s b) | _ => false end
+  | None => false
+  end.
+
 Fixpoint texp_ok (s : state) (root : bool) (e : texp) : bool :=
   match e with
   | TRet _ | TX => true
@@ -733,7 +757,9 @@ Definition op_ok (s : state) (o : op) : bool :=
   | NewMap _ a | NewCutoff _ a | NewAlways a => isUserNode s a
   | NewMap2 _ a b => isUserNode s a && isUserNode s b
   | NewMapN _ ins => forallb (isUserNode s) ins
-  | NewBind cases a => isUserNode s a && negb (bool_decide (cases = [])) && forallb (texp_ok s true) cases
+  | NewBind cases a | NewBindMemo cases a =>
+    isUserNode s a && negb (bool_decide (cases = [])) && forallb (texp_ok s true) cases
+  | PurgeMemo b _ | ClearMemo b => isMemoMain s b
   | Observe n => isUserNode s n
   | Unobserve o => bool_decide (is_Some (obs s !! o))
   | SetVar v _ | UpdateVar v _ => isVar s v
@@ -754,6 +780,17 @@ Definition step (s : state) (o : op) : M :=
   | NewCutoff c a => ok (fst (newNode s (KCutoff c) [a] None 0))
   | NewAlways a => ok (fst (newNode s KAlways [a] None 0))
   | NewBind cases a => ok (fst (newBind s cases a None))
+  | NewBindMemo cases a => ok (fst (newBindWith true s cases a None))
+  | PurgeMemo m x =>
+    match nkind (nd s m) with
+    | KBindMain b => ok (updb s b (set b_cache (filter (fun kv => fst kv <> x))))
+    | _ => ok s
+    end
+  | ClearMemo m =>
+    match nkind (nd s m) with
+    | KBindMain b => ok (updb s b (set b_cache (fun _ => [])))
+    | _ => ok s
+    end
   | Observe n => observe s n
   | Unobserve o => lift (unobserve s o)
   | SetVar v x => lift (varSet s v x)
